@@ -42,6 +42,8 @@ func build(n int, thorough bool) *fam {
 	c3 := w.AddBlock(c2, "c3", labnet.BlockOpt{})
 	c4 := w.AddBlock(c3, "c4", labnet.BlockOpt{})
 	c5 := w.AddBlock(c4, "c5", labnet.BlockOpt{})
+	c6 := w.AddBlock(c5, "c6", labnet.BlockOpt{})
+	c7 := w.AddBlock(c6, "c7", labnet.BlockOpt{})
 	f := &fam{W: w, n: n}
 	evIdx := map[string]int{}
 	add := func(e chainlab.Event) int {
@@ -171,6 +173,14 @@ func build(n int, thorough bool) *fam {
 	// a late vote for the checkpoint that has meanwhile been finalized (it is the tree root now)
 	hist("late-vote-for-finalized-root", true, append(append(append([]int{B(c1), B(c2), B(c3), B(c4)}, votes(full, 0, c2)...), votes(full, c2, c4)...), V(n-1, 0, c2), V(0, 0, c2), R, V(n-1, 0, c2), B(c5))...)
 	hist("vote-for-genesis", true, B(c1), B(c2), V(0, 0, 0), V(0, c2, 0), R, V(0, 0, 0), B(c3))
+	// the parent IS justified and its direct child gets justified by a link that skips the parent: a justified
+	// checkpoint with a justified direct child is NOT finalized unless the link starts from it
+	hist("skip-link-over-justified-parent", false, append(append(append([]int{B(c1), B(c2), B(c3), B(c4)}, votes(full, 0, c2)...), votes(full, 0, c4)...), R, B(c5))...)
+	hist("skip-link-first-then-parent-justified", true, append(append(append([]int{B(c1), B(c2), B(c3), B(c4)}, votes(full, 0, c4)...), votes(full, 0, c2)...), R, B(c5))...)
+	hist("skip-link-hdr-over-justified-parent", false, append(append([]int{B(c1), B(c2), B(c3)}, votes(full, 0, c2)...), BSL(c4, 0, full, false), R, B(c5))...)
+	// root -> c4 and root -> c6, both skip links: c4 is justified and so is its direct child c6, c4 is still not final
+	hist("two-skip-links-justified-parent-and-child", true, append(append(append([]int{B(c1), B(c2), B(c3), B(c4), B(c5), B(c6)}, votes(full, 0, c4)...), votes(full, 0, c6)...), R, B(c7))...)
+	hist("two-skip-links-child-first", true, append(append(append([]int{B(c1), B(c2), B(c3), B(c4), B(c5), B(c6)}, votes(full, 0, c6)...), votes(full, 0, c4)...), R, B(c7))...)
 	hist("skip-link-does-not-finalize", true, append(append([]int{B(c1), B(c2), B(c3), B(c4)}, votes(full, 0, c4)...), R, B(c5))...)
 	hist("cached-votes-before-target", true, append(append([]int{}, votes(full, 0, c2)...), B(c1), B(c2), B(c3), R, B(c4))...)
 	// votes that arrive BEFORE their target block are parked and replayed when the first block of the next epoch
